@@ -14,36 +14,36 @@ Local Open Scope Z_scope.
 Inductive site :=
 | SAssignVar        (* x = v            managers/variables/assignment.cpp:56 is_const && is_assigned *)
 | SCompoundVar      (* x op= v          same guard (compound assignment is desugared by the parser) *)
-| SIncDecVar        (* x++ --x          evaluator/operators/incdec.cpp: variable branch, no const test *)
+| SIncDecVar        (* x++ --x          evaluator/operators/incdec.cpp variable branch: is_const && is_assigned (since c8a1652) *)
 | SElemStore        (* a[i] = v         managers/variables/assignment.cpp:342 *)
 | SElemCompound     (* a[i] op= v *)
-| SElemIncDec       (* a[i]++           incdec.cpp array branch, no const test *)
+| SElemIncDec       (* a[i]++           incdec.cpp array branch (since c8a1652) *)
 | SMemberStore      (* s.m = v          executors/assignments/member_assignment.cpp:182/:226/:456/:470 *)
 | SMemberCompound   (* s.m op= v *)
-| SMemberIncDec     (* s.m++            incdec.cpp member branch, no const test (and the new value is lost) *)
+| SMemberIncDec     (* s.m++            incdec.cpp member branch (since c8a1652; the new value of an accepted s.m++ is lost) *)
 | SWholeConst       (* a = [..], s = t  on a const array / struct *)
 | SWholeMemberConst (* s = t            where struct s has a const member *)
 | SDerefStore       (* *p = v           simple_assignment.cpp:100 check_const_pointer_modification *)
-| SDerefIncDec      (* ( *p)++          incdec.cpp dereference branch, no const test *)
+| SDerefIncDec      (* ( *p)++          incdec.cpp dereference branch: is_pointee_const (since c8a1652) *)
 | SDerefExprStore   (* *(p + 0) = v     the helper only looks at a bare pointer variable *)
 | SDerefMember      (* ( *p).m = v      member_assignment.cpp:92 / :357 *)
-| SArrowStore       (* p->m = v         member_assignment.cpp execute_arrow_assignment, no const test *)
+| SArrowStore       (* p->m = v         member_assignment.cpp execute_arrow_assignment: check_const_pointer_modification (since 29cf056) *)
 | SPtrMemberConst   (* ( *p).m / p->m   where m is a const member of the pointee *)
 | SAddrAssign       (* p = &x           simple_assignment.cpp:1198 *)
-| SAddrDecl         (* T* p = &x        managers/variables/declaration.cpp pointer initialiser, no const test
-                                        (the test in executors/declarations/variable_declaration.cpp:699 is not on this path) *)
+| SAddrDecl         (* T* p = &x        managers/variables/declaration.cpp pointer initialiser (since 8c94aff; the older test in
+                                        executors/declarations/variable_declaration.cpp:699 is not on this path) *)
 | SAddrSubAssign    (* p = &a[i], &s.m  operand is not a bare variable: not looked at *)
 | SAddrSubDecl      (* T* p = &a[i] *)
 | SAddrArg          (* f(&x)            evaluator/functions/call_impl.cpp:5561 only looks at variables *)
 | SPtrCopyAssign    (* q = p            p is `const T*`, q is `T*` *)
 | SPtrCopyDecl      (* T* q = p *)
 | SPtrCopyArg       (* f(p)             call_impl.cpp:5610 *)
-| SRefParam         (* f(x), T& r       call_impl.cpp:4813 reference parameter binding, no const test *)
-| SRefLocal         (* T& r = x *)
+| SRefParam         (* f(x), T& r       call_impl.cpp reference parameter binding (since a242434) *)
+| SRefLocal         (* T& r = x         managers/variables/initialization.cpp (since 38104c4) *)
 | SConstRefStore    (* r = v            where r is `const T&` *)
 | SReseatAssign     (* p = ..           simple_assignment.cpp:966 check_const_pointer_reassignment *)
 | SReseatCompound   (* p += n           same path *)
-| SReseatIncDec.    (* p++ --p          incdec.cpp pointer branch, no const test *)
+| SReseatIncDec.    (* p++ --p          incdec.cpp pointer branch: is_pointer_const (since a842ca6) *)
 
 Definition all_sites : list site :=
   [SAssignVar; SCompoundVar; SIncDecVar; SElemStore; SElemCompound; SElemIncDec; SMemberStore; SMemberCompound;
@@ -72,10 +72,15 @@ Record policy := { chk : site -> bool; eff : site -> bool }.
 Definition spec : policy := {| chk := fun _ => true; eff := fun _ => true |}.
 
 (* the pinned implementation *)
+(* the second and third rows are the tests added by the repairs c8a1652 (++/-- : IncDecVar, ElemIncDec,
+   MemberIncDec, DerefIncDec), a842ca6 (ReseatIncDec), 8c94aff (AddrDecl), a242434 (RefParam),
+   38104c4 (RefLocal), 29cf056 (ArrowStore) *)
 Definition mech_chk (st : site) : bool :=
   match st with
   | SAssignVar | SCompoundVar | SElemStore | SElemCompound | SMemberStore | SMemberCompound | SWholeConst
-  | SDerefStore | SDerefMember | SAddrAssign | SPtrCopyArg | SReseatAssign | SReseatCompound => true
+  | SDerefStore | SDerefMember | SAddrAssign | SPtrCopyArg | SReseatAssign | SReseatCompound
+  | SIncDecVar | SElemIncDec | SMemberIncDec | SDerefIncDec | SReseatIncDec
+  | SAddrDecl | SRefParam | SRefLocal | SArrowStore => true
   | _ => false
   end.
 Definition mech_eff (st : site) : bool := match st with SMemberIncDec => false | _ => true end.
